@@ -32,7 +32,7 @@ type C07Case struct {
 }
 
 var c07Ops = []string{"boolop", "wrapper", "engine", "engineOC", "polytree", "inflate", "minkSum", "minkDiff",
-	"rectclip", "rectclipSingle", "rectlines", "rectlinesSingle", "trim", "badPrecision"}
+	"rectclip", "rectclipSingle", "rectlines", "rectlinesSingle", "rectTies", "rectlinesTies", "trim", "badPrecision"}
 
 func drawC07(t *rapid.T) *C07Case {
 	c := &C07Case{Op: rapid.SampledFrom(c07Ops).Draw(t, "op")}
@@ -42,6 +42,9 @@ func drawC07(t *rapid.T) *C07Case {
 	}
 	if c.Op == "badPrecision" {
 		c.Prec = rapid.SampledFrom([]int{9, -9, 100, -100, 17}).Draw(t, "badPrec")
+	}
+	if c.Op == "rectTies" || c.Op == "rectlinesTies" {
+		c.Prec = rapid.SampledFrom([]int{0, 1, 2, 3, 99}).Draw(t, "tiePrec")
 	}
 	R := rapid.SampledFrom([]int64{50, 5000, 3000000, 1 << 28}).Draw(t, "R")
 	f := Family{Kind: "g1", R: R, Spread: rapid.Bool().Draw(t, "spread")}
@@ -260,6 +263,41 @@ func judgeC07(c *C07Case, cx *Ctx) (v *Violation) {
 	case "rectlinesSingle":
 		got = c2.RectClipLinesPathD(c.rectFloat(), subjD[0])
 		want = c2.RectClipLinesPath64(c.Rect.rect(), c.Subj[0])
+	case "rectTies", "rectlinesTies":
+		// "rectangle bounds are quantised like path coordinates": every coordinate is n/2^(p+1),
+		// i.e. after scaling by 10^p an exact integer (n even) or an exact tie (n odd); all four
+		// bounds are ties. "Nearest integer" leaves the tie rule open, so the reference quantises
+		// bounds and vertices alike with the library's own path quantiser.
+		den := float64(int64(1) << (p + 1))
+		half := func(ps Paths) c2.PathsD {
+			out := make(c2.PathsD, len(ps))
+			for i, q := range ps {
+				out[i] = make(c2.PathD, len(q))
+				for j, v := range q {
+					out[i][j] = c2.PointD{X: float64(v.X) / den, Y: float64(v.Y) / den}
+				}
+			}
+			return out
+		}
+		l, tp, r, b := c.Rect.L|1, c.Rect.T|1, c.Rect.R|1, c.Rect.B|1
+		if l >= r || tp >= b {
+			cx.St.Eval(c, false, "op:"+c.Op, "skipped:empty-rectangle")
+			return nil
+		}
+		subjD = half(c.Subj)
+		fl, ft, fr, fb := float64(l)/den, float64(tp)/den, float64(r)/den, float64(b)/den
+		rectD := c2.NewRectD(fl, ft, fr, fb)
+		q := c2.ScalePathsDToPaths64(c2.PathsD{{{X: fl, Y: ft}, {X: fr, Y: fb}}}, scale)[0]
+		rect64 := c2.NewRect64(q[0].X, q[0].Y, q[1].X, q[1].Y)
+		subj64 := c2.ScalePathsDToPaths64(subjD, scale)
+		if c.Op == "rectTies" {
+			got = c2.RectClipPathsD(rectD, subjD, pa...)
+			want = c2.RectClipPaths64(rect64, subj64)
+		} else {
+			got = c2.RectClipLinesPathsD(rectD, subjD, pa...)
+			want = c2.RectClipLinesPaths64(rect64, subj64)
+		}
+		extra = fmt.Sprintf(" (tie coordinates n/%v, bounds (%v,%v,%v,%v) quantised like a path to %v)", den, fl, ft, fr, fb, q)
 	case "trim":
 		got = c2.PathsD{c2.TrimCollinearD(subjD[0], p, !c.Closed)}
 		want = Paths{c2.TrimCollinear64(c.Subj[0], !c.Closed)}
@@ -326,7 +364,7 @@ func judgeBadPrecision(c *C07Case, cx *Ctx) *Violation {
 
 func init() {
 	defProp("C07",
-		"rapid-generated integer 'intents' n (C01's g1 family, extents 50 .. 2^28), precision p in {default, 2, 0, 1, -1, 3, 5, 7, 8, -4, -7, -8}, float inputs x = (n+f)/10^p with deterministic |f| <= 0.45 kept only when x*10^p lies within n+-0.49 (ties excluded by construction); entry points BooleanOpPathsD, the five D wrappers, ClipperD.ExecuteOC (closed and open subjects), BooleanOpPolyTreeD, InflatePathsD (delta, arc tolerance, all join/end types), MinkowskiSumD/DiffD, RectClipPathsD/PathD, RectClipLinesPathsD/PathD, TrimCollinearD; oracle (differential): same path count/lengths/order as the 64-bit counterpart on the intents, every coordinate within 4 ulp of m/10^p; tree: identical node polygons and parents and Scale() = 10^p; precisions 9, -9, 17, +-100 must panic with ErrPrecisionRange in every D entry point that takes one; non-trivial = precision other than 2 or fractional inputs, and a non-empty result",
+		"rapid-generated integer 'intents' n (C01's g1 family, extents 50 .. 2^28), precision p in {default, 2, 0, 1, -1, 3, 5, 7, 8, -4, -7, -8}, float inputs x = (n+f)/10^p with deterministic |f| <= 0.45 kept only when x*10^p lies within n+-0.49 (ties excluded by construction; in the two "Ties" rectangle operations every coordinate is n/2^(p+1), an exact grid point or an exact tie, all four bounds are ties, and the reference quantises bounds and vertices alike with the library's path quantiser); entry points BooleanOpPathsD, the five D wrappers, ClipperD.ExecuteOC (closed and open subjects), BooleanOpPolyTreeD, InflatePathsD (delta, arc tolerance, all join/end types), MinkowskiSumD/DiffD, RectClipPathsD/PathD, RectClipLinesPathsD/PathD, TrimCollinearD; oracle (differential): same path count/lengths/order as the 64-bit counterpart on the intents, every coordinate within 4 ulp of m/10^p; tree: identical node polygons and parents and Scale() = 10^p; precisions 9, -9, 17, +-100 must panic with ErrPrecisionRange in every D entry point that takes one; non-trivial = precision other than 2 or fractional inputs, and a non-empty result",
 		[]string{"the 64-bit counterpart is trusted here (it is judged by C01..C11); this check only decides the scale-in / scale-out wrappers",
 			"delta*10^p and arcTol*10^p are formed with the same float expression the library documents"},
 		drawC07, judgeC07)
